@@ -403,3 +403,30 @@ def run(ck):
                        f"{rs.fid}: the validation result is discarded")
     ck.ob(R3r, f"{INPUTEXP}._restore_state", ok, why, rs, rs.node,
           witness=path_witness(ck.cfg(rs.fid, 'M0'), wit) if wit else None)
+    # the same, decided on every shape of a stored FSM state (state, expiry[, sdata]): what reaches
+    # the parent's _restore_state holds the VALIDATED input whenever an input was stored, and is
+    # otherwise unchanged
+    if rs.cls is iexp and len(rs.node.args.posonlyargs + rs.node.args.args) == 2:
+        from sa.minieval import MiniEval
+        par = (rs.node.args.posonlyargs + rs.node.args.args)[1].arg
+        shapes = [('valid', 17.5), ('valid', 17.5, {}), ('valid', 17.5, {'input': 'RAW'}),
+                  ('valid', 17.5, {'input': 'RAW', 'other': 1}), ('expired', None, {'input': 'RAW'}),
+                  ['valid', 17.5, {'input': 'RAW'}]]
+        bad = []
+        for st_ in shapes:
+            got = []
+            env = {par: st_, 'self._validate': lambda v: ('VALIDATED', v),
+                   'super()._restore_state': lambda x, got=got: got.append(x)}
+            out = MiniEval(R3r, env).run(rs.node.body)
+            ck.abstract_cases += 1
+            want = list(st_)
+            if len(st_) > 2 and 'input' in st_[2]:
+                want = [st_[0], st_[1], {**st_[2], 'input': ('VALIDATED', st_[2]['input'])}]
+            okc = out[0] == 'return' and len(got) == 1 and list(got[0]) == want
+            if not okc:
+                bad.append(f"stored state {st_!r}: the parent receives "
+                           f"{got[0] if got else None!r} ({out[0]}), must be {want!r}")
+        ck.ob(R3r, f"{INPUTEXP}._restore_state :: all stored shapes", not bad,
+              f"evaluated on {len(shapes)} shapes of the stored state: a stored input is replaced by "
+              f"its validated form, everything else is handed on unchanged" if not bad else
+              "; ".join(bad[:3]), rs, rs.node)
